@@ -5,7 +5,7 @@ What is proved here (over the interleaving model `Model/Locks.lean`, for every n
 threads and every schedule):
   * `C13_lock_order_acyclic`        no reachable lock-cycle deadlock when every thread acquires in
                                     rank order; instantiated with the lock programs re-extracted
-                                    from the Go AST (handshakeMutex → in → out)
+                                    from the Go AST (handshakeMutex → in → out → workKeyMu)
   * `C13_write_whole`               all records of one Write leave under ONE `out` section ⇒ the
                                     peer's stream is a whole interleaving of the payloads
   * `C13_read_no_loss_dup`          bytes leave the input buffer under `in` ⇒ what the readers got,
@@ -52,7 +52,8 @@ theorem C13_lock_order_general {α : Type} (rank : Nat → Nat) (s0 s : State (L
     ¬ Deadlocked (LockM α) s :=
   no_deadlock_of_ordered rank s (Reach.inv (OrdInv rank) hr h0 (ordInv_step rank))
 
-/-- the order handshakeMutex(0) → in(1) → out(2) extracted from THIS tree: every recorded
+/-- the order handshakeMutex(0) → in(1) → out(2) → workKeyMu(3, a leaf: taken under
+handshakeMutex+in by establishKeys and alone by Close) extracted from THIS tree: every recorded
 (held, acquired) pair goes up, and every per-method program obeys the discipline -/
 theorem C13_lock_order_extracted :
     (∀ p ∈ Facts.tlcp.lockPairs ++ Facts.dtlcp.lockPairs ++ Facts.pa.lockPairs, p.1 < p.2) ∧
@@ -237,19 +238,20 @@ example :
 /-! ### facts of this tree -/
 
 /-- The facts the instantiations above rely on, re-extracted from the Go AST on every run:
-only the three connection mutexes occur; in `Write` (both stacks) and `WriteTo` everything
+only the three connection mutexes and the leaf mutex of the work key (index 3, nothing is
+acquired while it is held) occur; in `Write` (both stacks) and `WriteTo` everything
 after the handshake is exactly ONE section `out.Lock(); <record loop>; out.Unlock()`;
 every transport write is guarded (see `emitsGuarded`), every consumption of plaintext input
 happens under `in`; the Write-like calls enter through the `activeCall` CAS loop and Close
 sets the bit once; handshakeContext re-checks under the mutex and is the only caller of
-handshakeFn and the only writer of handshakeErr; Close wipes the work key (owned by the
-handshake) only under handshakeMutex; pa's `wrapped` is never read outside `lock`.  The last two
+handshakeFn and the only writer of handshakeErr; the work key is touched only by Close and by
+establishKeys, both under workKeyMu; pa's `wrapped` is never read outside `lock`.  The last two
 are about plain field accesses, which the lock model does not cover: they pin the shape of the
 repairs F46 / F20 so that a regression also moves a fact, but the evidence for them is the race
 detector. -/
 theorem C13_facts :
-    Facts.tlcp.lockNames = ["Conn.handshakeMutex", "Conn.in", "Conn.out"] ∧
-    Facts.dtlcp.lockNames = ["Conn.handshakeMutex", "Conn.in", "Conn.out"] ∧
+    Facts.tlcp.lockNames = ["Conn.handshakeMutex", "Conn.in", "Conn.out", "Conn.workKeyMu"] ∧
+    Facts.dtlcp.lockNames = ["Conn.handshakeMutex", "Conn.in", "Conn.out", "Conn.workKeyMu"] ∧
     Facts.pa.lockNames = ["ProtocolSwitchServerConn.lock"] ∧
     tailAfterHandshake (lookupProg Facts.tlcp.lockProgs "Write") = [(0, 2), (2, 0), (1, 2)] ∧
     tailAfterHandshake (lookupProg Facts.dtlcp.lockProgs "Write") = [(0, 2), (2, 0), (1, 2)] ∧
@@ -266,8 +268,16 @@ theorem C13_facts :
     Facts.dtlcp.handshakeFnCallSites = ["Conn.handshakeContext"] ∧
     Facts.tlcp.handshakeErrWriters = ["Conn.handshakeContext"] ∧
     Facts.dtlcp.handshakeErrWriters = ["Conn.handshakeContext"] ∧
-    Facts.tlcp.closeWipesKeyUnderHandshakeMutex = true ∧
-    Facts.dtlcp.closeWipesKeyUnderHandshakeMutex = true ∧
+    Facts.tlcp.closeWipesKeyUnderWorkKeyMu = true ∧ Facts.dtlcp.closeWipesKeyUnderWorkKeyMu = true ∧
+    Facts.tlcp.establishKeysHoldWorkKeyMu =
+      ["clientHandshakeState.establishKeys", "serverHandshakeState.establishKeys"] ∧
+    Facts.dtlcp.establishKeysHoldWorkKeyMu =
+      ["clientHandshakeState.establishKeys", "serverHandshakeState.establishKeys"] ∧
+    Facts.tlcp.workKeyUsers =
+      ["Conn.Close", "clientHandshakeState.establishKeys", "serverHandshakeState.establishKeys"] ∧
+    Facts.dtlcp.workKeyUsers =
+      ["Conn.Close", "clientHandshakeState.establishKeys", "serverHandshakeState.establishKeys"] ∧
+    (∀ p ∈ Facts.tlcp.lockPairs ++ Facts.dtlcp.lockPairs, p.1 = 3 → False) ∧
     Facts.pa.wrappedAccessUnlocked = [] ∧
     Facts.missing = [] := by
   decide
